@@ -217,8 +217,16 @@ func (g *G) URI(bare bool) string {
 	}
 	if g.R.Chance(3, 4) {
 		sb.WriteString(g.tok(1, 10))
+		if !bare && g.R.Chance(1, 10) {
+			// ';' and '?' before an '@' belong to the user part
+			sb.WriteString(g.R.Pick([]string{";", "?", ";x=1", "?h=v", ";a?b"}) + g.alnum(0, 4))
+		}
 		if g.R.Chance(1, 6) {
-			sb.WriteString(":" + g.alnum(1, 6))
+			if g.R.Chance(1, 3) {
+				sb.WriteString(":" + strconv.Itoa(g.R.Intn(100000))) // all-digit password: looks like a port at first
+			} else {
+				sb.WriteString(":" + g.alnum(1, 6))
+			}
 		}
 		sb.WriteString("@")
 	}
